@@ -20,9 +20,10 @@ func StdPrograms(tier string) []*Schema {
 	for _, k := range StdKeyKinds {
 		ps = append(ps, ProgMaps(k))
 	}
-	ps = append(ps, ProgNested(), ProgBigID(2048), ProgBigID(262144))
+	// 2^29-1 in both tiers: field numbers >= 2^28 are the ones whose 5-byte tag does not fit an int32 once shifted
+	ps = append(ps, ProgNested(), ProgBigID(2048), ProgBigID(262144), ProgBigID(1<<29-1))
 	if tier == "thorough" {
-		ps = append(ps, ProgBigID(1<<25), ProgBigID(1<<29-1))
+		ps = append(ps, ProgBigID(1<<25), ProgBigID(1<<28))
 	}
 	progCache[tier] = ps
 	return ps
